@@ -166,6 +166,8 @@ impl Fiber {
   }
 
   pub fn scan_roots(&mut self) {
+    #[cfg(feature = "verif")]
+    laythe_core::verif::probe(laythe_core::verif::probes::SCAN_ROOTS);
     for value in self.stack.iter_mut() {
       fn compact_slice(slice: &mut [Value]) {
         for value in slice {
@@ -275,6 +277,8 @@ impl Fiber {
 
   /// Put this fiber to sleep
   pub fn sleep(&mut self) {
+    #[cfg(feature = "verif")]
+    laythe_core::verif::probe(laythe_core::verif::probes::FIBER_SLEEP);
     assert_eq!(self.state, FiberState::Running);
     self.state = FiberState::Pending;
     self.waiter.set_runnable(true);
@@ -282,12 +286,16 @@ impl Fiber {
 
   /// Block this fiber
   pub fn block(&mut self) {
+    #[cfg(feature = "verif")]
+    laythe_core::verif::probe(laythe_core::verif::probes::FIBER_BLOCK);
     assert_eq!(self.state, FiberState::Running);
     self.state = FiberState::Blocked;
   }
 
   /// Unblock this fiber
   pub fn unblock(&mut self) {
+    #[cfg(feature = "verif")]
+    laythe_core::verif::probe(laythe_core::verif::probes::FIBER_UNBLOCK);
     assert!(matches!(
       self.state,
       FiberState::Blocked | FiberState::Pending
@@ -299,6 +307,8 @@ impl Fiber {
 
   /// Activate this fiber
   pub fn complete(&mut self) -> Option<Ref<ChannelWaiter>> {
+    #[cfg(feature = "verif")]
+    laythe_core::verif::probe(laythe_core::verif::probes::FIBER_COMPLETE);
     assert_eq!(self.state, FiberState::Running);
 
     self.state = FiberState::Complete;
@@ -460,6 +470,8 @@ impl Fiber {
     );
 
     let call_frame_depth = self.frame_count();
+    #[cfg(feature = "verif")]
+    laythe_core::verif::probe(laythe_core::verif::probes::HANDLER_PUSH);
 
     self.exception_handlers.push(
       context.gc(),
